@@ -59,7 +59,11 @@ func gen(t *rapid.T) Case {
 	case "grid", "recv":
 		lim := rapid.SampledFrom([]int{2, 4, 8}).Draw(t, "lim")
 		hg := halfGrid(lim)
-		c.Polys = genPolys(t, hg, 7)
+		maxN := 7
+		if rapid.IntRange(0, 39).Draw(t, "longring") == 13 {
+			maxN = rapid.IntRange(300, 900).Draw(t, "maxnlong") // rings of hundreds of vertices (still exact on the grid)
+		}
+		c.Polys = genPolys(t, hg, maxN)
 		if rapid.Bool().Draw(t, "quarter") {
 			q := rapid.Map(rapid.IntRange(-2*lim-1, 2*lim+1), func(k int) float64 { return float64(k) / 4 })
 			c.Pt = vkit.MkP(q.Draw(t, "px"), q.Draw(t, "py"))
@@ -82,7 +86,7 @@ func gen(t *rapid.T) Case {
 		c.AsPoly = rapid.Bool().Draw(t, "aspoly")
 	}
 	if c.Kind != "float" && rapid.IntRange(0, 3).Draw(t, "scaled") == 0 {
-		c.ScaleExp = rapid.SampledFrom([]int{-1000, -600, -530, -300, -60, 20, 60, 300, 510, 600, 1000}).Draw(t, "scaleexp")
+		c.ScaleExp = rapid.OneOf(rapid.SampledFrom([]int{-1000, -600, -530, -300, -60, 20, 60, 300, 510, 600, 1000}), rapid.IntRange(-1000, 1000)).Draw(t, "scaleexp")
 	}
 	if c.Kind == "grid" && len(c.Polys[0][0]) >= 2 && rapid.IntRange(0, 9).Draw(t, "box") == 0 {
 		c.Box = true
@@ -256,7 +260,7 @@ func enumerate(ev *vkit.Ev[Case], n int) {
 func TestProp(t *testing.T) {
 	vkit.Main(t, vkit.Spec[Case]{
 		ID: "C02",
-		Rule: "rapid: polygons/multi-polygons/boxes of 1-2 members x 1-3 rings x 0-7 arbitrary vertices (self-intersecting, repeated, " +
+		Rule: "rapid: polygons/multi-polygons/boxes of 1-2 members x 1-3 rings x 0-7 (a few per cent: up to 300-900) arbitrary vertices (self-intersecting, repeated, " +
 			"unclosed, degenerate allowed) on the half-integer grid |k/2|<=1,2,4 with query points on the half and quarter grid, checked against an " +
 			"exact cross-product oracle; float polygons with points kept only when farther than 1e-6*extent+1e-16*magnitude from every edge; MultiPoint/LineString/" +
 			"MultiLineString/Polygon receivers; plus exhaustive enumeration of all 3-vertex (quick) and 4-vertex (thorough) rings over a 4x4 integer " +
